@@ -1,1 +1,134 @@
-"""C17 contracts."""
+"""C17 - the local facts of `action open` that are within the verifier's reach: what counts as a local link word, what opening
+a local link answers (one SEARCH protocol message, nothing else), what opening a ZID answers (EDIT + SEARCH of the owner's page,
+or nothing with exit status 1 when no indexed note owns it), and that `_open_link` selects the opener by the target's own
+shape only - so that option k opens the same thing as a line containing only the k-th target.  Standard output is a ghost list
+of the values printed (`printed()`); the index lookup and the other openers are assumed (uninterpreted) contracts.  The word
+scan of run_action_open itself is decided by the bounded tier only."""
+from engine.spec import T, contract, ghost, implies, opaque, printed  # noqa: F401
+from contracts import c16  # noqa: F401  (assumed contract of prepend_zdir: result is page_path(zdir, path))
+from contracts.c16 import page_path  # noqa: F401
+
+PATH = T.rec("Path", {"s": T.str()})
+CFG = T.rec("OpenActionConfig", {"zettel_dir": PATH, "zo_path": PATH, "database_url": T.str(), "verbose": T.int()})
+R = "zorg.app.runners._run_action:"
+SEARCH_END = "\\ze\\(\\s\\|[),.?!;:]\\|$\\)"
+
+contract(
+    R + "_is_local_link", props=["C17"], args={"word": T.str()}, returns=T.bool(), frame=True,
+    # only what the statement needs (a word such as `]][^`, marker after the bracket, is no local link under any reading and is left open)
+    ensures={"a-word-with-[^...]-is-a-local-link": "implies('[^' in word and ']' in word[word.find('[^'):], result)",
+             "nothing-else-is": "implies(result, '[^' in word and ']' in word)"},
+)
+
+contract(
+    R + "_open_local_link", props=["C17"], args={"local_link": T.str()}, returns=T.int(),
+    requires={"a-local-link-target": "local_link.startswith('[^') and local_link.endswith(']') and len(local_link) >= 3"},
+    ensures={
+        "one-SEARCH-message-for-the-anchor": "printed() == ['SEARCH LID::' + local_link[2:len(local_link) - 1] + SEARCH_END]",
+        "succeeds": "result == 0",
+    },
+)
+
+
+# ---------------------------------------------------------------------------------------------------------------
+# _open_zid_link: the index lookup is an assumed contract (stub): no indexed note owns the ZID, or one does and its page is
+# ghost `owner` (any path).  The statement: a ZID target resolves to the page of the indexed note that owns it.
+# ---------------------------------------------------------------------------------------------------------------
+def _zid_prelude(interp, loc):
+    import z3
+
+    ctx = interp.ctx
+    owned = ctx.branch(ctx.fresh("zid_is_owned", z3.BoolSort()), "an indexed note owns the ZID")
+    ctx.ghost["user"] = {"owner": PATH.fresh(ctx, "owner_page") if owned else None}
+
+
+def _stub_note_by_zid(interp, args, kwargs):
+    """ASSUMED note_utils.get_note_by_zid(zdir, db_url, zid): the indexed note whose ZID is `zid` (its page: ghost `owner`), None
+    when there is none; no output"""
+    from engine import sym
+
+    owner = interp.ctx.ghost["user"]["owner"]
+    return None if owner is None else sym.Rec("Note", {"file_path": owner})
+
+
+contract(
+    R + "_open_zid_link", props=["C17"], args={"cfg": CFG, "zid": T.str()}, returns=T.int(), prelude=_zid_prelude,
+    stubs={"zorg.service.note_utils:get_note_by_zid": _stub_note_by_zid},
+    ensures={
+        "unknown-ZID: no message, exit status 1": "implies(ghost('owner') is None, result == 1 and printed() == [])",
+        "owned-ZID: EDIT the owner's page under the notes directory, then SEARCH the ZID":
+            "implies(ghost('owner') is not None, result == 0 and printed() == ['EDIT ' + str(page_path(cfg.zettel_dir, ghost('owner'))), 'SEARCH \\\\s\\\\zs' + zid])",
+    },
+)
+
+
+# ---------------------------------------------------------------------------------------------------------------
+# _open_link: the opener is selected by the target's own shape (never by its position on the line or by the other targets), in
+# the statement's order page link, local, global, reference, named URL, (cite key), ZID.  The openers are uninterpreted here:
+# each is a function of (cfg, target) - their own contracts are above or, for the index-backed ones, in the bounded tier.
+# ---------------------------------------------------------------------------------------------------------------
+@opaque("int", always=True)
+def opened_as_page(cfg, target):
+    raise NotImplementedError("uninterpreted opener result (verifier only)")
+
+
+@opaque("int", always=True)
+def opened_as_global(cfg, target):
+    raise NotImplementedError("uninterpreted opener result (verifier only)")
+
+
+@opaque("int", always=True)
+def opened_as_reference(cfg, target):
+    raise NotImplementedError("uninterpreted opener result (verifier only)")
+
+
+@opaque("int", always=True)
+def opened_as_url(cfg, target):
+    raise NotImplementedError("uninterpreted opener result (verifier only)")
+
+
+@opaque("int", always=True)
+def opened_as_zid(cfg, target):
+    raise NotImplementedError("uninterpreted opener result (verifier only)")
+
+
+@opaque("int", always=True)
+def opened_as_cite(zdir, target):
+    raise NotImplementedError("uninterpreted opener result (verifier only)")
+
+
+@opaque("int", always=True)
+def opened_as_local(target):
+    raise NotImplementedError("uninterpreted opener result (verifier only)")
+
+
+_A = dict(props=["C17"], assumed=True, note="ASSUMED: uninterpreted opener (a function of cfg and the target)")
+contract(R + "_open_file_link", args={"cfg": CFG, "zo_path": PATH, "link": T.str()}, result_is="opened_as_page(cfg, link)", **_A)
+contract(R + "_open_global_link", args={"cfg": CFG, "id_link": T.str()}, result_is="opened_as_global(cfg, id_link)", **_A)
+contract(R + "_open_rid_link", args={"cfg": CFG, "rid_link": T.str()}, result_is="opened_as_reference(cfg, rid_link)", **_A)
+contract(R + "_open_url_link", args={"cfg": CFG, "url_link": T.str()}, result_is="opened_as_url(cfg, url_link)", **_A)
+contract(R + "_open_cite_key_link", args={"zdir": PATH, "z_cite_key": T.str()}, result_is="opened_as_cite(zdir, z_cite_key)", **_A)
+
+
+def _stub_open_local(interp, args, kwargs):
+    return interp.call(interp.wrap_global(opened_as_local), [args[0]], {})
+
+
+def _stub_open_zid(interp, args, kwargs):
+    return interp.call(interp.wrap_global(opened_as_zid), [args[0], args[1]], {})
+
+
+contract(
+    R + "_open_link", props=["C17"], args={"cfg": CFG, "target": T.str()}, returns=T.int(),
+    stubs={R + "_open_local_link": _stub_open_local, R + "_open_zid_link": _stub_open_zid},
+    # ID / RID / URL names are identifiers: they never contain the local-link marker `[^` (a word such as `[#[^x]]` is outside the
+    # statement's vocabulary and is left open)
+    ensures={
+        "page-link": "implies(target.startswith('[[') and target.endswith(']]'), result == opened_as_page(cfg, target))",
+        "local-link": "implies(target.startswith('[^') and target.endswith(']'), result == opened_as_local(target))",
+        "global-link": "implies(target.startswith('[#') and target.endswith(']') and '[^' not in target, result == opened_as_global(cfg, target))",
+        "reference-link": "implies(target.startswith('[@') and target.endswith(']') and '[^' not in target, result == opened_as_reference(cfg, target))",
+        "named-URL-link": "implies(target.startswith('[!') and target.endswith(']') and '[^' not in target, result == opened_as_url(cfg, target))",
+        "bare-ZID": "implies(not target.startswith('[') and not target.startswith('z::') and not ('[^' in target and ']' in target), result == opened_as_zid(cfg, target))",
+    },
+)
